@@ -28,6 +28,9 @@
 // the grammar, mutated samples, fixed special strings; encoded as JSON strings with random escape forms) all
 // spellings give the same Validate verdict and it equals regexp.MatchString(P, decoded probe).
 //
+// (c) stream "multi" (multi.go): several regex types and enum rules per schema, objects shared by several schemas,
+// call histories between AddType / AddRule and the first use; see the comment there.
+//
 // Conventions calibrated on the unchanged tree: enum.Value.Value and the AST Value of a rule item are the raw
 // literal text (strings keep quotes and escapes); numbers in a rule text have no exponent (scanner rule).
 // Word boundaries (\b, \B) and anchors inside a pattern are outside the grammar (the example generator ignores
@@ -89,7 +92,12 @@ func Run(args []string) {
 		"random layout and comments vs the same list inline, ~15 probe documents each; regex: patterns from a printable-ASCII grammar as /P/ + trailing "+
 		"text added as @T (used through type rule and as shortcut) vs inline {regex}, ~12 probe strings each with random JSON escape forms. "+
 		"twins (C02-enum): inline lists with items of equal text and different kind in both orders, probes of both kinds, membership by (decoded text, kind). "+
-		"nontrivial = enum list with >= 2 items or a comment; every twins case; pattern with an operator (class, group, quantifier, alternation or escape)")
+		"multi: programs with 2-4 regex types and 0-3 enum rules (shared objects) used by 1-3 root schemas (scalar / object / array; shortcut, type rule, or-shortcut, "+
+		"enum uses), set-up calls of the roots interleaved, history calls in between (other schemas with regex types built / checked / Example()d, Example() of literal "+
+		"schemas, Len / Pattern / Example / GetAST of the regex objects, Check / Values / GetAST of the rule objects), first use = Check, Validate, Example or GetAST; "+
+		"every verdict / error / Example / AST compared with fresh objects used straight away, with the inline spelling and with regexp / membership. "+
+		"nontrivial = enum list with >= 2 items or a comment; every twins case; pattern with an operator (class, group, quantifier, alternation or escape); "+
+		"multi: a root with >= 2 named objects or a call between a root's last AddRule / AddType and its first use")
 	only := ""
 	if len(args) > 0 {
 		only = args[0]
@@ -102,6 +110,9 @@ func Run(args []string) {
 	}
 	if only == "" || only == "regex" {
 		runRegex(rep)
+	}
+	if only == "" || only == "multi" {
+		runMulti(rep)
 	}
 	rep.Finish()
 }
